@@ -1,7 +1,7 @@
 """Probe: concrete reference interpreter of the nmfu statement language on the lark parse tree
 (own semantics; uses only nmfu.parser for syntax) -- validated on the '// ok|bad|finish-' annotations."""
 import sys, glob, os, shlex, random
-sys.path.insert(0, '/repo'); sys.path.insert(0, '/tmp/probe')
+sys.path.insert(0, '/repo'); sys.path.insert(0, __import__('os').path.dirname(__import__('os').path.abspath(__file__)))
 import nmfu, lark
 from refre_probe import conv as re_conv, deriv, nullable, EMPTY, EPS, cat, alt, star, ALL
 import string as _s
